@@ -785,6 +785,11 @@ func histories() [][]hist.Op {
 			{K: "attr", Path: "/g/d", Name: "a", A: &hist.AttrVal{Kind: "f64", Seed: 1}}, {K: "hard", Path: "/l", Target: "/g/d"}, {K: "soft", Path: "/s", Target: "/g"},
 			{K: "attr", Path: "/g", Name: "ga", A: &hist.AttrVal{Kind: "i32", Seed: 2}}, {K: "densegroup", Path: "/dg", Links: [][2]string{{"x", "/g/d"}}}},
 		dense,
+		// variable-length data spanning several global heap collections (elements of up to 9000 bytes)
+		{{K: "dataset", Path: "/v", D: &hist.DSpec{Type: "vl:str", Dims: []uint64{30}}}, {K: "write", Path: "/v", Seed: 5},
+			{K: "attr", Path: "/v", Name: "a", A: &hist.AttrVal{Kind: "i32", Seed: 3}},
+			{K: "dataset", Path: "/w", D: &hist.DSpec{Type: "vl:i32", Dims: []uint64{6}, Chunk: []uint64{4}}}, {K: "write", Path: "/w", Seed: 6},
+			{K: "dataset", Path: "/n", D: &hist.DSpec{Type: "i32", Dims: []uint64{3}}}, {K: "write", Path: "/n", Seed: 7, Mode: 1}},
 	}
 }
 
@@ -850,10 +855,26 @@ func runHistoryWithFault(h []hist.Op, op string, k int) (calls int, firedIn stri
 	if !fired {
 		outcome = "clean"
 	}
-	return calls, firedIn, outcome, obs.Read(file, obs.Options{})
+	final = obs.Read(file, obs.Options{})
+	// what an independent decoder makes of the stored bytes, compared with the model (variable-length data, raw bytes of
+	// types without a typed read): kept as a summary string next to the observation
+	lastIndep = ""
+	if data, err := os.ReadFile(file); err == nil {
+		res := hist.CompareIndep(ex.M, data)
+		var ps []string
+		for _, p := range res.Problems {
+			ps = append(ps, p.String())
+		}
+		sort.Strings(ps)
+		lastIndep = "decode:" + res.DecodeErr + " problems:" + strings.Join(ps, " | ")
+	}
+	return calls, firedIn, outcome, final
 }
 
-var cleanFinal sync.Map
+// lastIndep is the independent decoder's summary of the last run that reached its end (set under hookMu).
+var lastIndep string
+
+var cleanFinal, cleanIndep sync.Map
 
 func cleanObs(hi int, h []hist.Op) *obs.File {
 	if v, ok := cleanFinal.Load(hi); ok {
@@ -861,6 +882,7 @@ func cleanObs(hi int, h []hist.Op) *obs.File {
 	}
 	_, _, _, o := runHistoryWithFault(h, "write", -1)
 	cleanFinal.Store(hi, o)
+	cleanIndep.Store(hi, lastIndep)
 	return o
 }
 
@@ -882,8 +904,12 @@ func runWriteFault(c WriteFaultCase) vt.Verdict {
 	case outcome == "nil":
 		// the API call returned nil although one of its I/O calls failed: then it must have achieved exactly what it
 		// achieves with working I/O - the final content equals the fault-free run's
+		mine := lastIndep
 		if d := obs.Diff(cleanObs(c.History, hs[c.History]), final); d != "" {
 			return vt.Bad("history %d: %s #%d failed during %s, the call returned nil and the final content differs from the fault-free run: %s", c.History, c.Op, c.K, where, clip(d))
+		}
+		if ci, _ := cleanIndep.Load(c.History); ci != nil && ci.(string) != mine {
+			return vt.Bad("history %d: %s #%d failed during %s, the call returned nil and the stored bytes decode differently from the fault-free run's: %s (fault-free: %s)", c.History, c.Op, c.K, where, clip(mine), clip(ci.(string)))
 		}
 	}
 	return vt.Pass()
